@@ -417,6 +417,9 @@ def rule_R5_pipeline(ctx, prj, rid="R5", clauses=None) -> bool:
     try:
         for name, nested, got, want in ME.scenarios(prj):
             if nested is None:
+                if want == "moved" and got:
+                    ctx.viol(rid, "scan_file/token-positions", fi.site(), f"measuring changes the tokens it is given: {got[0]}: positions are no longer those of the source "
+                                                                       f"text (a second pass over the same tokens, or anything shown next to them, is off)")
                 continue
             clause, text = ME.describe_difference(got, want)
             mode = "nested functions allowed" if nested else "nested functions not allowed"
